@@ -162,7 +162,7 @@ fn main() {
         .ok()
         .and_then(|s| s.parse::<u64>().ok())
         .unwrap_or(match tier {
-            Tier::Quick => 3000,
+            Tier::Quick => 7200,
             Tier::Thorough => 6 * 3600,
         });
     std::thread::spawn(move || {
